@@ -387,6 +387,35 @@ func C16(run *hx.Run) {
 			"CREATE INDEX i ON t("+strings.Repeat("a+", big/4)+"1)",
 			"CREATE TABLE t(a "+strings.Repeat("NOT NULL ", big/16)+")")
 	}
+	// very long inputs (tens of megabytes), one parse each: recursion that follows the input length overflows
+	// the stack - a fatal error no caller can recover, reported by the parent process as a crash of this one -
+	// and anything quadratic in the input length does not finish (watchdog)
+	{
+		huge := []string{
+			"CREATE TABLE t(\"" + strings.Repeat("\"\"", 12<<20) + "\" int)",
+			"CREATE TABLE t(a DEFAULT '" + strings.Repeat("''", 12<<20) + "')",
+			"CREATE TABLE t(`" + strings.Repeat("``", 6<<20) + "` int)",
+			"CREATE TABLE t(a CHECK(" + strings.Repeat("(", 1<<18) + "1" + strings.Repeat(")", 1<<18) + "))",
+			"CREATE TABLE t(" + strings.Repeat("a int, ", 1<<17) + "b)",
+			"CREATE TABLE t(a " + strings.Repeat("-", 1<<19) + "1)",
+			"SELECT " + strings.Repeat("a,", 1<<18) + "b FROM t",
+		}
+		for hi, h := range huge {
+			done := make(chan parseOut, 1)
+			go func() { done <- parseOnce(h) }()
+			select {
+			case r := <-done:
+				run.Eval(1)
+				run.Distinct(fmt.Sprintf("huge:%d", hi))
+				if r.pm != "" {
+					run.Violation("C16/panic/huge-input/"+panicSite(r.pm), fmt.Sprintf("Parse panicked on a %d-byte input starting %q: %s", len(h), clip(h, 40), firstLines(r.pm, 2)), nil)
+				}
+				run.See("huge_input_bytes", fmt.Sprint(len(h)))
+			case <-time.After(180 * time.Second):
+				run.Violation("C16/hang/huge-input", fmt.Sprintf("Parse of a %d-byte input starting %q did not finish within 180 s (cost must stay near-linear in the input)", len(h), clip(h, 40)), nil)
+			}
+		}
+	}
 	unrelated := []string{"CREATE TABLE zz(q INTEGER PRIMARY KEY AUTOINCREMENT, w TEXT COLLATE NOCASE UNIQUE DEFAULT 'd' REFERENCES o(i) ON DELETE CASCADE DEFERRABLE INITIALLY DEFERRED, UNIQUE(w DESC), PRIMARY KEY(q)) WITHOUT ROWID",
 		"CREATE UNIQUE INDEX zzi ON zz(w COLLATE RTRIM DESC, q) WHERE w IS NOT NULL", "SELECT * FROM zz"}
 	const batch = 20000
